@@ -24,6 +24,7 @@ def call(k, *args): return {"e": "call", "k": k, "args": list(args)}
 def lam(x): return {"e": "lambda", "x": x}
 def comp(v, k, x): return {"e": "comp", "v": v, "k": k, "x": x}
 def comp2(v, w, k): return {"e": "comp2", "v": v, "w": w, "k": k}      # [w for v in IT(k) for w in (v, v)]
+def callinner(name, k): return {"e": "callinner", "name": name, "k": k}   # name(): a nested def whose body evaluates site k
 def const(c): return {"e": "const", "c": c}
 def mlstr(zero=False): return {"e": "mlstr", "zero": zero}      # length of a multi-line string literal (its lines are part of the value)
 
@@ -78,6 +79,8 @@ def p_expr(e, twin):
         return f"U({e['k']})"
     if k == "obj":
         return f"O({e['k']})"
+    if k == "callinner":
+        return f"{e['name']}()"
     if k == "headof":
         return f"{e['v']}.head"
     if k == "call":
